@@ -48,6 +48,8 @@ def plan_for(prop, tier):
                 dict(kind="worker", name="tsan-weak-hash", variant="tsan", part="", runs=20000 if q else 400000, block=1000, hash_mod=50, key_mod=1 if q else 16, extra=["--weak-hash"]),
                 dict(kind="worker", name="cold-start-tsan", variant="tsan", part="cold", runs=1500 if q else 30000, block=1, hash_mod=25, key_mod=1, extra=["--cold"], recheck_block=1),
                 dict(kind="worker", name="cold-start-asan", variant="asan", part="cold", runs=500 if q else 10000, block=1, hash_mod=25, key_mod=1, extra=["--cold"], recheck_block=1),
+                dict(kind="worker", name="exit-while-running-tsan", variant="tsan", part="exit", runs=600 if q else 12000, block=1, hash_mod=25, key_mod=1, extra=["--cold"], recheck_block=1),
+                dict(kind="worker", name="exit-while-running-asan", variant="asan", part="exit", runs=300 if q else 6000, block=1, hash_mod=25, key_mod=1, extra=["--cold"], recheck_block=1),
                 dict(kind="worker", name="tmpl3-seeded", variant="gzero", part="tmpl3", runs=4000 if q else 40000, block=500, hash_mod=0, key_mod=1, template="k3"),
                 dict(kind="enumerate", name="k3-exhaustive", variant="asan", k=3, names=1, fy=False, template="k3"),
                 dict(kind="enumerate", name="k3-exhaustive-tsan", variant="tsan", k=3, names=1, fy=False),
